@@ -57,13 +57,16 @@ static void put_meta(Case &c, const GenLP &g) {
   c.ops.push_back(o);
 }
 
-static void gen_warm(Tape &t, const Model &m, Case &c, int kinds) {
+static void gen_warm(Tape &t, const Model &m, Case &c, int kinds, const GenLP *g = nullptr) {
   int k = (int)t.below((uint32_t)kinds);
+  bool hinted = g && !g->hint_cs.empty() && kinds >= 3 && t.chance(2, 3);
+  if (hinted) k = 2;
   Op o("warm");
   o.I(k);
   if (k == 2) {
     std::string cs, rs;
-    gen_basis(t, m, cs, rs);
+    if (hinted) { cs = g->hint_cs; rs = g->hint_rs; }
+    else gen_basis(t, m, cs, rs);
     o.S(cs).S(rs);
   } else if (k == 3) {
     for (int j = 0; j < m.n(); j++) o.N(gen_num(t, 1));
@@ -80,8 +83,9 @@ static void c01_gen(Tape &t, Case &c) {
   c.add_model(g.m);
   put_meta(c, g);
   c.ops.push_back(Op("route").I(t.below(R_NROUTES)));
-  gen_warm(t, g.m, c, 4);
+  gen_warm(t, g.m, c, 4, &g);
   SolveCfg cfg = gen_cfg(t, true);
+  if (!g.hint_cs.empty() && t.chance(2, 3)) cfg.algo = PRIMAL_SIMPLEX;
   if (cfg.entry != 0 && t.chance(1, 5)) cfg.itlim = 1 + (int)t.below(6);
   c.ops.push_back(cfg.op());
 }
@@ -119,8 +123,8 @@ static void c04_gen(Tape &t, Case &c) {
   GenOpts o;
   o.maxm = 2 + (int)t.below(7); o.maxn = 2 + (int)t.below(7); o.bigness = 1;
   GenLP g;
-  static const int fam[] = {F_OPT, F_OPT, F_ILL, F_INF, F_FACE, F_SHAPE, F_RAND, F_CYC, F_OPT, F_ILL, F_INF, F_FACE, F_RAND};
-  gen_lp_family(t, o, fam[t.below(13)], g);
+  static const int fam[] = {F_OPT, F_OPT, F_ILL, F_INF, F_FACE, F_SHAPE, F_RAND, F_CYC, F_OPT, F_ILL, F_INF, F_FACE, F_RAND, F_FIXB};
+  gen_lp_family(t, o, fam[t.below(14)], g);
   c.add_model(g.m);
   put_meta(c, g);
   c.ops.push_back(Op("route").I(t.below(R_NROUTES)));
@@ -128,7 +132,7 @@ static void c04_gen(Tape &t, Case &c) {
   // basis, one from another objective, an arbitrary one, repeated solves of the same object
   int k = 6 + (int)t.below(5);
   for (int s = 0; s < k; s++) {
-    gen_warm(t, g.m, c, s < 4 ? s + 1 > 3 ? 4 : s + 1 : 4);
+    gen_warm(t, g.m, c, s < 4 ? s + 1 > 3 ? 4 : s + 1 : 4, &g);
     SolveCfg cfg = gen_cfg(t, true);
     if (s == 0) { cfg.entry = 0; cfg.algo = PRIMAL_SIMPLEX; cfg.scaling = 1; }
     if (s == 1) { cfg.entry = 0; cfg.algo = DUAL_SIMPLEX; cfg.scaling = 0; }
